@@ -99,6 +99,8 @@ func (p c09) Run(c *core.Ctx, idx int) {
 		o.CompoundKeys = false
 		cmp = dp.CmpOpts{IgnoreListOrder: true, EmptyListIsAbsent: true}
 	}
+	// cases and case members contributed by an augmenting module (the choice learns of them after it was compiled)
+	o.Aug = idx%5 == 2
 	s := dp.GenSchema(r, o)
 	hasChoice := false
 	maxNest := 0
